@@ -35,6 +35,28 @@ Qed.
 
 (* ------------------------------------------------------------------ the relation *)
 
+(* the two stores are the same sorted list, from the per-key clauses *)
+Lemma store_eq_parts now rev st kv : esorted st -> bsorted kv -> (forall k, kwf now (b_find k kv)) ->
+  (forall k, option_map pk (e_find k st) = live k (b_find k kv)) -> (now <= rev)%N ->
+  map pk st = b_proj kv rev.
+Proof.
+  intros Hes Hbs Hwf Hkv Hle. apply psorted_ext.
+  - apply psorted_map_pk. exact Hes.
+  - apply psorted_b_proj. exact Hbs.
+  - intros k. rewrite p_find_map_pk, (p_find_b_proj k _ _ Hbs), (Hkv k).
+    symmetry. eapply b_live_head; [apply Hwf|exact Hle].
+Qed.
+
+(* a write of key k that keeps k's reading at revision q keeps the whole reading at q *)
+Lemma b_proj_set_old k x s q : bsorted s -> b_live q k x = b_live q k (b_find k s) -> b_proj (b_set k x s) q = b_proj s q.
+Proof.
+  intros Hs Hx. apply psorted_ext.
+  - apply psorted_b_proj. apply bsorted_set. exact Hs.
+  - apply psorted_b_proj. exact Hs.
+  - intros k'. rewrite (p_find_b_proj k' _ _ (bsorted_set k x s Hs)), (p_find_b_proj k' _ _ Hs), b_find_set.
+    destruct (beqb k k') eqn:E; [|reflexivity]. apply beqb_eq in E; subst k'. exact Hx.
+Qed.
+
 Record R (sb : bstate) (se : estate) : Prop := mkR {
   R_now : e_now se = Z.of_N (b_rev sb);
   R_rev : e_rev se <= e_now se;
@@ -42,11 +64,16 @@ Record R (sb : bstate) (se : estate) : Prop := mkR {
   R_bs : bsorted (b_kv sb);
   R_wf : forall k, kwf (b_rev sb) (b_find k (b_kv sb));
   R_kv : forall k, option_map pk (e_find k (e_cur se)) = live k (b_find k (b_kv sb));
-  R_ev : map proj_event (e_events se) = map proj_event (map shim_event (b_events sb))
+  R_ev : map proj_event (e_events se) = map proj_event (map shim_event (b_events sb));
+  (* the history clause: the interpreter's store as of any revision up to the current one is the backend's reading at
+     that revision (per key the newest object record at or below it, unless the reserved value) *)
+  R_hcur : forall z, e_rev se <= z -> hist_at (e_hist se) z = e_cur se;
+  R_hs : forall z, esorted (hist_at (e_hist se) z);
+  R_hist : forall q, (q <= b_rev sb)%N -> map pk (hist_at (e_hist se) (Z.of_N q)) = b_proj (b_kv sb) q
 }.
 
 Lemma R_init base : R (b_init base) (e_init (Z.of_N base)).
-Proof. constructor; cbn; try reflexivity; try lia; try constructor; intros k; cbn; exact I. Qed.
+Proof. constructor; cbn; try reflexivity; try lia; try constructor; try (intros k; cbn; exact I); intros; constructor. Qed.
 
 Definition bounded (sb : bstate) : Prop := Z.of_N (b_rev sb) + 1 < two63.
 
@@ -180,67 +207,96 @@ Proof. unfold bounded. intros H Hr. apply i64_of_N_small. lia. Qed.
 
 (* ------------------------------------------------------------------ relation preservation *)
 
+Lemma hist_at_cons nr st h z : hist_at ((nr, st) :: h) z = if nr <=? z then st else hist_at h z.
+Proof. reflexivity. Qed.
+
 Lemma R_burn sb se nr : R sb se -> nr = Z.of_N (b_rev sb) + 1 ->
   R (mkB (b_rev sb + 1) (b_kv sb) (b_events sb)) (e_tick se nr).
 Proof.
-  intros HR ->. destruct HR. constructor; cbn; try assumption.
+  intros HR ->. destruct HR. constructor; cbn [e_now e_rev e_cur e_hist e_events e_tick b_rev b_kv b_events]; try assumption.
   - rewrite R_now0. lia.
   - lia.
   - intros k. eapply kwf_mono; [|apply R_wf0]. lia.
+  - intros q Hq. destruct (N.eq_dec q (b_rev sb + 1)) as [->|Hne]; [|apply R_hist0; lia].
+    rewrite R_hcur0 by lia. apply (store_eq_parts (b_rev sb)); try assumption. lia.
 Qed.
 
-Lemma R_put sb se k v y ev1 ev2 h vers :
+Lemma R_put sb se k v y ev1 ev2 vers :
   R sb se -> v <> tombstone ->
   bk_vers (b_find k (b_kv sb)) = vers ->
   pk y = (k, v, Z.of_N (b_rev sb) + 1) ->
   proj_event ev1 = proj_event (shim_event ev2) ->
   let nr := Z.of_N (b_rev sb) + 1 in
   R (mkB (b_rev sb + 1) (b_set k (mkBK (Some (b_rev sb + 1, false)%N) ((b_rev sb + 1, v)%N :: vers)) (b_kv sb)) (b_events sb ++ [ev2]))
-    (mkE nr (Z.max (e_now se) nr) (e_set y (e_cur se)) ((nr, e_set y (e_cur se)) :: h) (e_events se ++ [ev1])).
+    (mkE nr (Z.max (e_now se) nr) (e_set y (e_cur se)) ((nr, e_set y (e_cur se)) :: e_hist se) (e_events se ++ [ev1])).
 Proof.
   intros HR Hv Hvers Hy Hev nr. destruct HR.
   assert (Hky : k_key y = k) by (unfold pk in Hy; congruence).
-  constructor; cbn [e_now e_rev e_cur e_events b_rev b_kv b_events].
-  - rewrite R_now0. unfold nr. lia.
-  - lia.
-  - apply esorted_set; assumption.
-  - apply bsorted_set; assumption.
-  - intros k'. rewrite b_find_set. destruct (beqb k k') eqn:E.
+  set (kv' := b_set k (mkBK (Some (b_rev sb + 1, false)%N) ((b_rev sb + 1, v)%N :: vers)) (b_kv sb)).
+  assert (Hes : esorted (e_set y (e_cur se))) by (apply esorted_set; assumption).
+  assert (Hbs : bsorted kv') by (apply bsorted_set; assumption).
+  assert (Hwf : forall k', kwf (b_rev sb + 1) (b_find k' kv')).
+  { intros k'. unfold kv'. rewrite b_find_set. destruct (beqb k k') eqn:E.
     + unfold kwf; cbn [bk_idx bk_vers]. split; [reflexivity|]. split; [lia|]. split; [lia|].
       split; [intros H; discriminate H|intros H; contradiction].
-    + eapply kwf_mono; [|apply R_wf0]. lia.
-  - intros k'. rewrite e_find_set, b_find_set, Hky. destruct (beqb k k') eqn:E.
+    + eapply kwf_mono; [|apply R_wf0]. lia. }
+  assert (Hkv : forall k', option_map pk (e_find k' (e_set y (e_cur se))) = live k' (b_find k' kv')).
+  { intros k'. unfold kv'. rewrite e_find_set, b_find_set, Hky. destruct (beqb k k') eqn:E.
     + apply beqb_eq in E; subst k'. cbn [option_map]. rewrite Hy. unfold live; cbn.
       apply beqb_neq in Hv. rewrite Hv. f_equal. f_equal. lia.
-    + apply R_kv0.
+    + apply R_kv0. }
+  constructor; cbn [e_now e_rev e_cur e_hist e_events b_rev b_kv b_events]; try assumption.
+  - rewrite R_now0. unfold nr. lia.
+  - lia.
   - rewrite !map_app, R_ev0. cbn. rewrite Hev. reflexivity.
+  - intros z Hz. rewrite hist_at_cons. apply Z.leb_le in Hz. rewrite Hz. reflexivity.
+  - intros z. rewrite hist_at_cons. destruct (nr <=? z); [assumption|apply R_hs0].
+  - intros q Hq. rewrite hist_at_cons. destruct (N.eq_dec q (b_rev sb + 1)) as [->|Hne].
+    + replace (nr <=? Z.of_N (b_rev sb + 1)) with true by (symmetry; apply Z.leb_le; unfold nr; lia).
+      apply (store_eq_parts (b_rev sb + 1)); try assumption; lia.
+    + replace (nr <=? Z.of_N q) with false by (symmetry; apply Z.leb_gt; unfold nr; lia).
+      rewrite R_hist0 by lia. symmetry. apply b_proj_set_old; [assumption|].
+      unfold b_live; cbn [bk_vers vers_at]. replace (b_rev sb + 1 <=? q)%N with false by (symmetry; apply N.leb_gt; lia).
+      rewrite Hvers. reflexivity.
 Qed.
 
-Lemma R_del sb se k oldv modrev rest ev1 ev2 h :
+Lemma R_del sb se k oldv modrev rest ev1 ev2 :
   R sb se ->
   bk_vers (b_find k (b_kv sb)) = (modrev, oldv) :: rest ->
   proj_event ev1 = proj_event (shim_event ev2) ->
   let nr := Z.of_N (b_rev sb) + 1 in
   let st' := e_remove_range k [] (e_cur se) in
   R (mkB (b_rev sb + 1) (b_set k (mkBK (Some (b_rev sb + 1, true)%N) ((b_rev sb + 1, tombstone)%N :: (modrev, oldv) :: rest)) (b_kv sb)) (b_events sb ++ [ev2]))
-    (mkE nr (Z.max (e_now se) nr) st' ((nr, st') :: h) (e_events se ++ [ev1])).
+    (mkE nr (Z.max (e_now se) nr) st' ((nr, st') :: e_hist se) (e_events se ++ [ev1])).
 Proof.
   intros HR Hvers Hev nr st'. destruct HR.
-  constructor; cbn [e_now e_rev e_cur e_events b_rev b_kv b_events].
-  - rewrite R_now0. unfold nr. lia.
-  - lia.
-  - apply esorted_filter; assumption.
-  - apply bsorted_set; assumption.
-  - intros k'. rewrite b_find_set. destruct (beqb k k') eqn:E.
+  set (kv' := b_set k (mkBK (Some (b_rev sb + 1, true)%N) ((b_rev sb + 1, tombstone)%N :: (modrev, oldv) :: rest)) (b_kv sb)).
+  assert (Hes : esorted st') by (apply esorted_filter; assumption).
+  assert (Hbs : bsorted kv') by (apply bsorted_set; assumption).
+  assert (Hwf : forall k', kwf (b_rev sb + 1) (b_find k' kv')).
+  { intros k'. unfold kv'. rewrite b_find_set. destruct (beqb k k') eqn:E.
     + unfold kwf; cbn [bk_idx bk_vers]. split; [reflexivity|]. split; [lia|]. split; [lia|].
       split; intros; reflexivity.
-    + eapply kwf_mono; [|apply R_wf0]. lia.
-  - intros k'. unfold st', e_remove_range.
+    + eapply kwf_mono; [|apply R_wf0]. lia. }
+  assert (Hkv : forall k', option_map pk (e_find k' st') = live k' (b_find k' kv')).
+  { intros k'. unfold st', kv', e_remove_range.
     rewrite (e_find_filter (fun key => negb (in_range k [] key))), b_find_set.
     cbn [in_range]. rewrite beqb_sym. destruct (beqb k k') eqn:E; cbn [negb].
     + unfold live; cbn. reflexivity.
-    + apply R_kv0.
+    + apply R_kv0. }
+  constructor; cbn [e_now e_rev e_cur e_hist e_events b_rev b_kv b_events]; try assumption.
+  - rewrite R_now0. unfold nr. lia.
+  - lia.
   - rewrite !map_app, R_ev0. cbn. rewrite Hev. reflexivity.
+  - intros z Hz. rewrite hist_at_cons. apply Z.leb_le in Hz. rewrite Hz. reflexivity.
+  - intros z. rewrite hist_at_cons. destruct (nr <=? z); [assumption|apply R_hs0].
+  - intros q Hq. rewrite hist_at_cons. destruct (N.eq_dec q (b_rev sb + 1)) as [->|Hne].
+    + replace (nr <=? Z.of_N (b_rev sb + 1)) with true by (symmetry; apply Z.leb_le; unfold nr; lia).
+      apply (store_eq_parts (b_rev sb + 1)); try assumption; lia.
+    + replace (nr <=? Z.of_N q) with false by (symmetry; apply Z.leb_gt; unfold nr; lia).
+      rewrite R_hist0 by lia. symmetry. apply b_proj_set_old; [assumption|].
+      unfold b_live; cbn [bk_vers vers_at]. replace (b_rev sb + 1 <=? q)%N with false by (symmetry; apply N.leb_gt; lia).
+      rewrite Hvers. reflexivity.
 Qed.
 
 (* ------------------------------------------------------------------ the step lemmas *)
@@ -325,14 +381,14 @@ Proof.
     rewrite Hi, He. cbn [Z.eqb apply_ops apply_op q_put].
     rewrite (apply_put_new nr _ _ _ k v lease He). cbn [fst snd w_wrote w_store w_events app].
     rewrite (i64_rev sb Hb). split; [reflexivity|]. split; [discriminate|]. split; [|reflexivity].
-    rewrite Hvs. eapply (R_put sb se k v _ _ _ _ [] HR Hv); [rewrite Hvs; reflexivity| reflexivity |].
+    rewrite Hvs. eapply (R_put sb se k v _ _ _ [] HR Hv); [rewrite Hvs; reflexivity| reflexivity |].
     cbn. rewrite (i64_rev sb Hb). reflexivity.
   - (* deleted: both create *)
     rewrite Hi, He. assert (Hlt : (r <? b_rev sb + 1)%N = true) by (apply N.ltb_lt; lia). rewrite Hlt.
     cbn [andb Z.eqb apply_ops apply_op q_put].
     rewrite (apply_put_new nr _ _ _ k v lease He). cbn [fst snd w_wrote w_store w_events app].
     rewrite (i64_rev sb Hb). split; [reflexivity|]. split; [discriminate|]. split; [|reflexivity].
-    eapply (R_put sb se k v _ _ _ _ _ HR Hv); [reflexivity | reflexivity |].
+    eapply (R_put sb se k v _ _ _ _ HR Hv); [reflexivity | reflexivity |].
     cbn. rewrite (i64_rev sb Hb). reflexivity.
   - (* live: both refuse *)
     rewrite Hi, He. cbn [andb].
@@ -486,13 +542,13 @@ Proof.
     + rewrite Hi. rewrite Hf in Hcmp.
       rewrite (etcd_update_succ_new se nr k v u lease lim Hk Hs Hcmp Hf). cbn [fst snd].
       rewrite (i64_rev sb Hb). split; [reflexivity|]. split; [discriminate|]. split; [|reflexivity].
-      rewrite Hvs. eapply (R_put sb se k v _ _ _ _ [] HR Hv); [rewrite Hvs; reflexivity|reflexivity|].
+      rewrite Hvs. eapply (R_put sb se k v _ _ _ [] HR Hv); [rewrite Hvs; reflexivity|reflexivity|].
       cbn. rewrite (i64_rev sb Hb). reflexivity.
     + rewrite Hi. assert (Hlt : (r <? b_rev sb + 1)%N = true) by (apply N.ltb_lt; lia). rewrite Hlt. cbn [andb].
       rewrite Hf in Hcmp.
       rewrite (etcd_update_succ_new se nr k v u lease lim Hk Hs Hcmp Hf). cbn [fst snd].
       rewrite (i64_rev sb Hb). split; [reflexivity|]. split; [discriminate|]. split; [|reflexivity].
-      eapply (R_put sb se k v _ _ _ _ _ HR Hv); [reflexivity|reflexivity|].
+      eapply (R_put sb se k v _ _ _ _ HR Hv); [reflexivity|reflexivity|].
       cbn. rewrite (i64_rev sb Hb). reflexivity.
     + rewrite Hi. cbn [andb b_kv].
       rewrite (b_get_live sb k r v0 rest Hb ltac:(lia) Hv0 Hvs).
@@ -521,7 +577,7 @@ Proof.
         assert (Hm : (k_mod y =? e) = true) by (apply Z.eqb_eq; lia). rewrite Hm in Hcmp.
         rewrite (etcd_update_succ_old se nr k v u lease lim y Hk Hs Hcmp Hf). cbn [fst snd].
         rewrite (i64_rev sb Hb). split; [reflexivity|]. split; [discriminate|]. split; [|reflexivity].
-        rewrite Hvs. eapply (R_put sb se k v _ _ _ _ _ HR Hv); [exact Hvs|reflexivity|].
+        rewrite Hvs. eapply (R_put sb se k v _ _ _ _ HR Hv); [exact Hvs|reflexivity|].
         cbn. rewrite (i64_rev sb Hb). reflexivity.
       * assert (Hm : (k_mod y =? e) = false) by (apply Z.eqb_neq; lia). rewrite Hm in Hcmp.
         rewrite (b_get_live sb k r v0 rest Hb ltac:(lia) Hv0 Hvs).
@@ -601,7 +657,7 @@ Proof.
     assert (Hm : (k_mod y =? e) = true) by (apply Z.eqb_eq; lia). rewrite Hm in Hcmp.
     rewrite (etcd_delete_succ se nr k u lim y Hk Hs Hcmp Hf). cbn [fst snd].
     rewrite (i64_rev sb Hb). split; [reflexivity|]. split; [discriminate|]. split; [|reflexivity].
-    rewrite Hvs. eapply (R_del sb se k v0 r rest _ _ _ HR Hvs).
+    rewrite Hvs. eapply (R_del sb se k v0 r rest _ _ HR Hvs).
     cbn. rewrite (i64_rev sb Hb), (i64_le sb r Hb ltac:(lia)). unfold pk. rewrite Hyk, Hyv, Hym. reflexivity.
   - assert (Hm : (k_mod y =? e) = false) by (apply Z.eqb_neq; lia). rewrite Hm in Hcmp.
     rewrite (etcd_delete_fail se nr k u lim Hk Hs Hcmp). cbn [fst snd].
@@ -640,6 +696,6 @@ Proof.
   rewrite (i64_rev sb Hb). split; [|split; [discriminate|split; [|reflexivity]]].
   - unfold proj_txn, q_deleteu; cbn [t_succ proj_ops proj_op q_get q_del opt_kvs map d_prev_kv].
     rewrite (pk_shim_kv sb k v0 r Hb ltac:(lia)). unfold pk. rewrite Hyk, Hyv, Hym. reflexivity.
-  - rewrite Hvs. eapply (R_del sb se k v0 r rest _ _ _ HR Hvs).
+  - rewrite Hvs. eapply (R_del sb se k v0 r rest _ _ HR Hvs).
     cbn. rewrite (i64_rev sb Hb), (i64_le sb r Hb ltac:(lia)). unfold pk. rewrite Hyk, Hyv, Hym. reflexivity.
 Qed.
